@@ -528,6 +528,51 @@ func checkC18(p *core.Program, r *core.Report) {
 		}
 	}
 	r.Require("send_msg_newmsgout_sites", nMsg, 3)
+
+	// IVR messages: the locale is the language of the lookup that produced the message's text (its audio URL when the
+	// message has no text)
+	nIVR := 0
+	for _, cs := range p.CallsToName("flows.NewIVRMsgOut") {
+		c, ok := cs.Instr.(*ssa.Call)
+		if !ok || p.IsTestFile(cs.Pos()) || len(c.Call.Args) < 5 {
+			continue
+		}
+		nIVR++
+		content := c.Call.Args[2]
+		if s, isC := core.ConstString(content); isC && s == "" {
+			content = c.Call.Args[3]
+		}
+		var lookups []*ssa.Call
+		for x := range core.BackSlice(content, func(*ssa.Call) bool { return true }) {
+			if ex, ok := x.(*ssa.Extract); ok && ex.Index == 0 {
+				if g, ok := ex.Tuple.(*ssa.Call); ok {
+					if o := core.CalleeObj(&g.Call); o != nil && core.ObjName(o) == "flows.Run.GetText" {
+						lookups = append(lookups, g)
+					}
+				}
+			}
+		}
+		key := core.FuncName(cs.Caller) + "/ivr-locale"
+		if len(lookups) != 1 {
+			r.Unknown("R4", key, p.Pos(c.Pos()), fmt.Sprintf("the message content derives from %d GetText lookups, expected one", len(lookups)))
+			continue
+		}
+		okLang, got := false, "no currentLocale call"
+		for x := range core.BackSlice(c.Call.Args[4], nil) {
+			if cc, ok := x.(*ssa.Call); ok {
+				if f := cc.Call.StaticCallee(); f != nil && f.Name() == "currentLocale" && len(cc.Call.Args) == 2 {
+					ex, isEx := cc.Call.Args[1].(*ssa.Extract)
+					if isEx && ex.Tuple == ssa.Value(lookups[0]) && ex.Index == 1 {
+						okLang = true
+					} else {
+						got = "the language of another lookup (" + canonShort(cc.Call.Args[1]) + ")"
+					}
+				}
+			}
+		}
+		r.Check(okLang, "R4", key, p.Pos(c.Pos()), "locale from the language of the lookup that produced the content", "the IVR message's locale comes from "+got+", not from the lookup that produced its content: a message spoken in one language is reported in another")
+	}
+	r.Require("ivr_message_sites", nIVR, 2)
 }
 
 // isDefaultLanguageOf: v is X.DefaultLanguage() where X comes from a call of the named session method.
